@@ -330,8 +330,11 @@ static void print_handle(KSI_AsyncHandle *h) {
 	KSI_AsyncHandle_getRequestCtx(h, &tag); KSI_AsyncHandle_getRequestId(h, &id);
 	if (st == KSI_ASYNC_STATE_ERROR_NOTICE && tag != NULL) { const void *t2 = NULL; KSI_AsyncHandle_getRequestCtx((KSI_AsyncHandle *)tag, &t2); tag = t2; }
 	if (st == KSI_ASYNC_STATE_PUSH_CONFIG_RECEIVED && nsvc > 0) tag = NULL;
-	KSI_AsyncHandle_getParentId(h, &parent); (void)parent;
+	KSI_AsyncHandle_getParentId(h, &parent);
 	printf(" h=%ld state=%d err=0x%x ext=%ld id=%llu", (long)(size_t)tag - 1, st, err, ext, (unsigned long long)id);
+	if (nsvc > 0) {      /* HA: which endpoint the handle says it comes from (pep = index of the sub-service whose endpoint id is the handle's parent id; 0 = none) */
+		int k, pep = 0; for (k = 0; k < nsvc; k++) { size_t eid = 0; if (svc[k] && KSI_AsyncService_getOption(svc[k], KSI_ASYNC_PRIVOPT_ENDPOINT_ID, &eid) == KSI_OK && eid == parent && parent != 0) pep = k + 1; }
+		printf(" pep=%d", pep); }
 	if (st == KSI_ASYNC_STATE_RESPONSE_RECEIVED && extending && tag != NULL && (size_t)tag - 1 < MAXH && xs_sig[(size_t)tag - 1] != NULL) {
 		/* signature-extending request: xsig=<rc of KSI_AsyncHandle_getSignature> src=<source serialization same|diff> ext=<result> */
 		long t = (long)(size_t)tag - 1; KSI_Signature *ext = NULL; unsigned char *after = NULL, *ser = NULL; size_t al = 0, el = 0; int rc = KSI_AsyncHandle_getSignature(h, &ext);
